@@ -235,6 +235,35 @@ def _order_cases():
 ORDER_CASES = _order_cases()
 
 
+def nested_tuples(depth):
+    """tuples nested in tuples (EMPTY ones included, in every position) alone, as call argument,
+    keyword value, subscript index and operand: arity and nesting must survive print + parse"""
+    import itertools
+    a, b, f, x = p.Variable("a"), p.Variable("b"), p.Variable("f"), p.Variable("x")
+    level = [a, ()]
+    seen = []
+    for _d in range(depth - 1):
+        nxt = []
+        for n in (1, 2, 3):
+            for combo in itertools.product(level, repeat=n):
+                t = tuple(combo)
+                if t not in nxt and len(nxt) < 400:
+                    nxt.append(t)
+        level = [a, ()] + nxt
+    for t in level:
+        if not isinstance(t, tuple) or t in seen:
+            continue
+        seen.append(t)
+        yield t
+        yield p.Call(f, (t,))
+        yield p.Call(f, (t, b))
+        yield p.CallWithKwargs(f, (b,), immutabledict({"k": t}))
+        if t:
+            yield p.Subscript(x, t)
+        yield (t, b)
+        yield (b, t)
+
+
 class PrintStream(Stream):
     """str(e) of the real stringifier vs the model (string AND the token list the real lexer makes
     of it), plus the round-trip oracle on the real code"""
@@ -249,6 +278,8 @@ class PrintStream(Stream):
         for e in (p.CallWithKwargs(f, (a,), immutabledict()), p.CallWithKwargs(f, (), immutabledict()),
                   p.Sum((p.CallWithKwargs(f, (a, b), immutabledict()), 1)), [(a, b)], ((a, b),), [a, (a, b)]):
             yield {"expr": dumps(expr_to_sx(e)), "src": "directed"}
+        for e in nested_tuples(3 if tier == "quick" else 4):
+            yield {"expr": dumps(expr_to_sx(e)), "src": "nested-tuples"}
         n3 = 1500 if tier == "quick" else 40000
         for e in three_level(rng, n3):
             yield {"expr": dumps(expr_to_sx(e)), "src": "three-level"}
